@@ -221,3 +221,34 @@ _upgrade('C07',
          'definition automaton, TemplateData wiring; bounded only.',
          {'pybufrkit.coder.': 'C07'},
          ['build_bitmapped_descriptors, define_bitmap, process_bitmap_definition and templatedata.py are bounded only'])
+
+
+def _deductive(prop, claim, note, witness, trusted, extra_assumptions=(), level='proof'):
+    d = PROPS[prop]
+    d.update(level=level, claim=claim, note=note, technique=DEDUCTIVE, witness_map=witness,
+             trusted_base=list(trusted), explanation=claim)
+    d['assumptions'] = list(d.get('assumptions', [])) + list(extra_assumptions)
+
+
+STR_TRUST = [L['L1'], L['L3'], L['L5'], L['L6'], L['term']]
+
+_deductive('C15',
+           'Proved for all inputs: one arbitrary iteration of the character loop of NodePathParser.parse, from any register state satisfying the '
+           'invariant, does exactly what the documented grammar dictates for that (state, character) pair -- one step clause per rule: whitespace '
+           'ignored; @ only at the start; [ only after @ or a non-empty ID; : and ] only inside an open slice, [] rejected; separators close the '
+           'subset selector or the pending component (nothing dropped) and the first separator is / or >; other characters accumulate -- and may '
+           'leave by PathExprParsingError only where the grammar has no successor or a slice element is not an integer (raise-step clause); the '
+           'end of input accepts exactly "inside a non-empty ID" and "after a closed slice" and appends the pending component; no other exception '
+           'class can escape (every implicit IndexError / TypeError / ValueError / AssertionError site is an obligation); slice objects are the '
+           'Python-style ones (none -> [::], k >= 0 -> k, k < 0 -> slice(k, k+1 or None), 2-3 elements -> slice(*), more -> rejected); '
+           'slice_to_str prints an index as [k] and a slice as [a:b:c] with only absent parts empty. Bounded: whole-string behaviour (induction '
+           'over the string not mechanised), print / parse round trip.',
+           'Trusted: SMT strings for Python str, int() model L3 (decimal literals accepted with their value, the empty string rejected, everything else '
+           'open), slice objects as immutable records, lenient reading of <descriptor_id>. Bounded (not proved): composition of the step contract '
+           'over the whole string; NodePath.__str__ over all components; parse(str(p)) == p.',
+           {'pybufrkit.dataquery.': 'C15.'},
+           STR_TRUST + ['Python slice objects are immutable records (start, stop, step); slice(*l) takes 1..3 arguments',
+                        'composition of the per-iteration step contract into the whole-string statement is the usual induction over the input '
+                        '(enumerated by the bounded layer for all strings up to length 5 / 6), not mechanised'],
+           ['<descriptor_id> alphabet: lenient reading (any character other than @ [ ] : / . > and whitespace), fail-fast on the first character as the '
+            'repository tests require'])
